@@ -24,7 +24,7 @@ structure St where
   specFr : Option J := none
   specFrDefined : Bool := true   -- false: the filter fails on the delivered object, the spec is silent
 
-def cks (j : J) : String := j.print
+def cks : J → String := textCks id
 
 def intern (tab : List String) (s : String) : List String × Nat :=
   match tab.idxOf? s with
